@@ -18,12 +18,15 @@ CHECKS_FOR = {'C01-B': ['C01', 'C03'], 'C02-B': ['C02', 'C03'],
               'C02-E': ['C02', 'C01'], 'C08-F': ['C08', 'C07'],
               'C10-F': ['C10', 'C08'], 'C15-E': ['C15', 'C07'],
               'C03-E': ['C03', 'C01'], 'C14-E': ['C14', 'C01'],
-              'C04-E': ['C04', 'C11'], 'C11-E': ['C11', 'C03']}
+              'C04-E': ['C04', 'C11'], 'C11-E': ['C11', 'C03'],
+              'C03-F': ['C03', 'C04']}
 
 
 def one(sid, suite):
     sd = os.path.join(VERIF, 'seeded', sid)
     checks = CHECKS_FOR.get(sid, [sid.split('-')[0]])
+    if '--no-checks' in sys.argv:
+        checks = []
     cmd = ['python3', os.path.join(VERIF, 'tools', 'eval_mutant.py'), sd] + \
         checks + (['--suite'] if suite else [])
     p = subprocess.run(cmd, capture_output=True, text=True)
@@ -65,7 +68,8 @@ def one(sid, suite):
                   'harness_errors': c['harness']}
     meta['caught_by'] = sorted(k for k, c in out.items()
                                if c['exit_code'] == 1
-                               and c['violation_lines'] > 0)
+                               and c['violation_lines'] > 0
+                               and c.get('first_fingerprints'))
     meta['what_was_run'] = [
         'git -C /repo worktree add --detach <scratch> HEAD',
         'python demo.py                       (pristine: exit 0)',
